@@ -8,7 +8,7 @@ try:
 except Exception as e:
     ok = False; print('MANIFEST INVALID', str(e)[:300])
 sch = json.load(open('/root/.vp/EVIDENCE.schema.json'))
-for f in sorted(glob.glob('/verif/evidence/*.json')):
+for f in sorted(glob.glob('/verif/evidence/*.json')+glob.glob('/verif/evidence/*/*.json')):
     try:
         jsonschema.validate(json.load(open(f)), sch); print(f, 'ok')
     except Exception as e:
